@@ -68,6 +68,11 @@ CHECKS = {
             '(none, larger, smaller timeframe) x spot/futures are executed twice; whenever the normal run satisfies the precondition (<=1 resting fill per trading-candle span, no liquidation) the executed '
             'orders with fill minute, the closed trades and the final balances must be identical.',
             'Session lengths are multiples of every route timeframe. Sessions failing the precondition are counted as ambiguous, not compared.', 'DESIGN.md 3/C12'),
+    'C01': ('session', 'exhaustive enumeration of sessions with a prefix-trie hyperproperty oracle: every run is compared with every other run that shares a candle prefix, at every cut point',
+            'All candle words x programs x configurations (spot/futures, trading timeframes 1m..15m, larger and smaller data-route timeframes, one and two symbols with cross-reads, warm-up on/off, both simulators) '
+            'run with full observation: every hook logs price, position, balance, margin, active orders and a digest of every candle array it can read. For every cut minute the digest of all observable events '
+            'up to that simulated time is filed under the candle prefix; all runs that share the prefix must agree, i.e. every replacement tail of the lattice at every cut point.',
+            'Words have equal length; fast-simulator cuts on trading-candle boundaries only. Candle-store insert events are inputs, not observations.', 'DESIGN.md 3/C01'),
 }
 
 NOT_APPLICABLE = {}
